@@ -776,7 +776,7 @@ pub fn values_of<T: Subject>(name: &'static str, cfg: &ValueCfg, g: Gen<T>, lett
     *out.counters.entry("structure-changing-first-deviations").or_insert(0) += firsts.len() as u64;
     // two deviations, the first one structure-changing (distinct resulting values only)
     if cfg.two_dev {
-        let jobs: Vec<(usize, u8, usize)> = firsts.iter().flat_map(|&(p, d)| (0..n).filter(move |&q| q != p).map(move |q| (p, d, q))).collect();
+        let jobs: Vec<(usize, u8, usize)> = firsts.iter().flat_map(|&(p, d)| (p + 1..n).map(move |q| (p, d, q))).collect();
         let lvl2 = jobs
             .par_iter()
             .fold(ValueSet::default, |mut acc, &(p, d, q)| {
